@@ -210,6 +210,12 @@ def load8 (m : Mem) (a : Nat) : Res (Option Const) := do
   | none => pure none
   | some lv => if lv.bits = 8 then pure (some lv) else .panic
 
+/-- `let shift = match self.endian { Big => (bytes - offset - 1) * 8, Little => offset * 8 }` -/
+def shiftOf (e : Endian) (bytes off : Nat) : Nat :=
+  match e with
+  | .big => (bytes - off - 1) * 8
+  | .little => off * 8
+
 /-- the byte loop `for offset in 0..bytes`, `k` iterations left, `off = bytes - k` -/
 def byteLoop (m : Mem) (a bits bytes : Nat) : Nat → Nat → Option Const → Res (Option Const)
   | 0, _, result => .ok result
@@ -223,10 +229,7 @@ def byteLoop (m : Mem) (a bits bytes : Nat) : Nat → Nat → Option Const → R
       | none => .ok none
       | some v => do
         let z ← vzext v bits
-        let shift := match m.endian with
-          | .big => (bytes - off - 1) * 8
-          | .little => off * 8
-        let s ← vshl z shift
+        let s ← vshl z (shiftOf m.endian bytes off)
         let r ← match result with
           | some r => vor r s
           | none => pure s
@@ -243,9 +246,9 @@ def load (m : Mem) (a bits : Nat) : Res (Option Const) :=
       if lv.bits = bits then pure (some lv)
       else byteLoop m a bits (bits / 8) (bits / 8) 0 none
 
-/-- phase 1 of `store`: the value to re-home after the write (`None` if the cell after the write is
-    not a back-reference) -/
-def storeTail (m : Mem) (aaw : Nat) : Res (Option Const) :=
+/-- phase 1 of `store`: the value to re-home after the write and its address (`None` if the cell after
+    the write is not a back-reference) -/
+def storeTail (m : Mem) (aaw : Nat) : Res (Option (Nat × Const)) :=
   match loadCell m aaw with
   | some (.backref b) =>
     match loadCell m b with
@@ -255,7 +258,9 @@ def storeTail (m : Mem) (aaw : Nat) : Res (Option Const) :=
       let d ← csub aaw b
       let used ← cmul d 8
       let left ← csub bv.bits used
-      load m aaw left
+      match ← load m aaw left with
+      | some t => pure (some (aaw, t))
+      | none => pure none
   | _ => .ok none
 
 /-- phase 2 of `store`: the shortened value before the write and where it lives -/
@@ -269,6 +274,17 @@ def storeHead (m : Mem) (a : Nat) : Res (Option (Nat × Const)) :=
       | none => .panic                        -- `value_to_write.1.unwrap()`
   | _ => .ok none
 
+/-- phase 1 guarded by `address_after_write = last_address.checked_add(1)`: nothing to re-home when the
+    write ends at the top of the address space -/
+def storeTailOpt (m : Mem) (aaw : Nat) : Res (Option (Nat × Const)) :=
+  if aaw ≥ U64 then pure none else storeTail m aaw
+
+/-- `if let Some((address, value)) = value_to_write { self.store_no_backref(address, value) }` -/
+def rehome (m : Mem) (w : Option (Nat × Const)) : Mem :=
+  match w with
+  | some (a, v) => storeNoBackref m a v
+  | none => m
+
 /-- `Memory::store`.  `last_address = address.checked_add(bytes - 1)` must exist; the address after
     the write does not exist when the write ends at the top of the address space, and then phase 1 is
     skipped. -/
@@ -277,14 +293,10 @@ def store (m : Mem) (a : Nat) (v : Const) : Res Mem :=
   else if a + (v.bits / 8 - 1) ≥ U64 then .err .other
   else do
     let aaw := a + v.bits / 8
-    let tail ← if aaw ≥ U64 then pure none else storeTail m aaw
-    let m1 := match tail with
-      | some t => storeNoBackref m aaw t
-      | none => m
+    let tail ← storeTailOpt m aaw
+    let m1 := rehome m tail
     let head ← storeHead m1 a
-    let m2 := match head with
-      | some (b, h) => storeNoBackref m1 b h
-      | none => m1
+    let m2 := rehome m1 head
     pure (storeNoBackref m2 a v)
 
 /-- `Memory::permissions`: the page's own permissions, else the backing's -/
